@@ -26,6 +26,7 @@ PATS = ['^carbon\\.', '^servers\\.', '\\.count$', 'cpu', '.*', '^a\\.', 'web[0-9
         '^stats\\.|\\.count$', '^internal\\.|\\.user$', '^a\\.|cpu', '(^servers|mem)', '^(?:x|y)|load$',
         # patterns that match without consuming a character
         '^', '$', '^(?!carbon\\.)', '^(?!.*\\.count$)', '\\b', 'x*', '(?=.*cpu)', '',
+        '^\\.', '^\\.\\.', '\\.$', '^[^.]+$', '\\.\\.',
         ';env=prod(;|$)', ';type=counter', '^app\\..*;dc=', 'x ;y', 'a #b', '#hash', '[;#]', 'cpu ; not a comment']
 RETS = ['60:1440', '10s:6h', '1m:7d', '10s:6h,1m:7d,10m:5y', '1:10', '60s:90d', '1h:2w', '15m:1y', '5m:12h,1h:1w', '30:2d', '7s:3m', '2d:10y', '1w:4w',
         # every suffix on either side of the colon, bare numbers on either side
@@ -33,6 +34,8 @@ RETS = ['60:1440', '10s:6h', '1m:7d', '10s:6h,1m:7d,10m:5y', '1:10', '60s:90d', 
         ' 10s:1d , 1m:30d ', '1h:1d']
 NAMES = ['carbon.agents.h.cpuUsage', 'servers.web1.cpu.user', 'a.b.count', 'stats.x', 'nomatch', 'servers.db.mem', 'x', 'web22.count',
          'a.cpu.mem.count', 'y.z', 'plain', 'app.web.hits;env=prod', 'app.web.hits;dc=a;env=prod', 'q;type=counter', 'x#hash', 'cpu;env=stage',
+         # names with empty path elements (an empty prefix in the sender's configuration), matched as received
+         '.servers.web1.cpu.user', '..a.b.count', '.carbon.agents.h.cpuUsage', 'servers..web1', 'a.b.count.', '.stats', '.x',
          'servers.m\u00fcnchen.cpu.user', 'db.shard\u0663.rows', 'requ\u00eates.count', '\u00e9t\u00e9.load', 'servers.web1.load']
 METHODS = ['average', 'sum', 'last', 'max', 'min']
 
